@@ -90,6 +90,11 @@ class Linear(Transform):
             self.cache.invalidate()
         return super().train(mode)
 
+    def _load_from_state_dict(self, *args, **kwargs):
+        # Loaded parameters make any cached weight, inverse or logabsdet stale.
+        self.cache.invalidate()
+        return super()._load_from_state_dict(*args, **kwargs)
+
     def use_cache(self, mode=True):
         if not check.is_bool(mode):
             raise TypeError("Mode must be boolean.")
